@@ -702,9 +702,26 @@ func c12OptionValidation(w *World, r *Report, prop string) {
 					}
 				}
 			}
-			if good && !bad {
+			// options whose list is empty accept anything: the test is made only for a non-empty list (or the predicate itself lets an
+			// empty list pass)
+			emptyOK := predicateAcceptsEmptyList(c.Call.StaticCallee())
+			if !emptyOK {
+				for _, bb := range fn.Blocks {
+					cond := branchCond(bb)
+					if cond == nil {
+						continue
+					}
+					if op, nonEmptySucc, ok := lenGtZero(cond); ok && stripIdentity(op) == stripIdentity(c.Call.Args[0]) && edgeDominates(bb, nonEmptySucc, b) {
+						emptyOK = true
+					}
+				}
+			}
+			switch {
+			case good && !bad && emptyOK:
 				r.pass(rule, key, w.instrPos(ins), "")
-			} else {
+			case good && !bad:
+				r.fail(rule, key, w.instrPos(ins), "the membership test is also applied to options whose list of allowed values is empty (package names, module paths): every value of such an option is rejected")
+			default:
 				r.fail(rule, key, w.instrPos(ins), fmt.Sprintf("diagnostic on the not-a-member edge: %v; diagnostic on the member edge: %v - a listed value is rejected or an unlisted one accepted", good, bad))
 			}
 		})
@@ -1660,4 +1677,22 @@ func returnsUnderEmptyList(f *ssa.Function, ret *ssa.Return) bool {
 		}
 	}
 	return false
+}
+
+// predicateAcceptsEmptyList: the membership predicate returns true when its list is empty.
+func predicateAcceptsEmptyList(f *ssa.Function) bool {
+	if f == nil || f.Blocks == nil || len(f.Params) != 2 {
+		return false
+	}
+	ok := false
+	forEachInstr(f, func(_ *ssa.BasicBlock, ins ssa.Instruction) {
+		ret, isRet := ins.(*ssa.Return)
+		if !isRet || len(ret.Results) != 1 {
+			return
+		}
+		if k, isK := ret.Results[0].(*ssa.Const); isK && k.Value != nil && k.Value.Kind() == constant.Bool && constant.BoolVal(k.Value) && returnsUnderEmptyList(f, ret) {
+			ok = true
+		}
+	})
+	return ok
 }
